@@ -173,6 +173,91 @@ func guardedParse(data []byte) parseOutcome {
 	}
 }
 
+// checkExported: C20 on the exported parsers.  Whatever the bytes, Parse, ParseLax and ParseWork return a file or
+// errors - they do not panic, hang or report an internal error - every error position lies inside the input, and a
+// file the strict parser accepts is accepted by the lax one with the same module, go, require and retract values.
+func checkExported(data []byte) []core.Violation {
+	var vs []core.Violation
+	q := fmt.Sprintf("%q", data)
+	if len(q) > 300 {
+		q = q[:300] + "..."
+	}
+	type result struct {
+		f     *modfile.File
+		w     *modfile.WorkFile
+		err   error
+		panic any
+		hang  bool
+	}
+	run := func(name string) result {
+		ch := make(chan result, 1)
+		go func() {
+			var out result
+			defer func() {
+				if r := recover(); r != nil {
+					out.panic = r
+				}
+				ch <- out
+			}()
+			switch name {
+			case "Parse":
+				out.f, out.err = modfile.Parse("go.mod", data, nil)
+			case "ParseLax":
+				out.f, out.err = modfile.ParseLax("go.mod", data, nil)
+			case "ParseWork":
+				out.w, out.err = modfile.ParseWork("go.work", data, nil)
+			}
+		}()
+		select {
+		case o := <-ch:
+			return o
+		case <-time.After(5 * time.Second):
+			return result{hang: true}
+		}
+	}
+	res := map[string]result{}
+	for _, name := range []string{"Parse", "ParseLax", "ParseWork"} {
+		o := run(name)
+		res[name] = o
+		switch {
+		case o.hang:
+			vs = append(vs, core.Violation{Sig: "c20:hang:" + name, What: fmt.Sprintf("%s did not return within 5s on %s", name, q)})
+		case o.panic != nil:
+			vs = append(vs, core.Violation{Sig: "c20:panic:" + name, What: fmt.Sprintf("%s panicked (%v) on %s", name, o.panic, q)})
+		case o.err != nil:
+			if s := o.err.Error(); strings.Contains(s, "internal error") || strings.Contains(s, "internal lexer error") || strings.Contains(s, "internal parse error") {
+				vs = append(vs, core.Violation{Sig: "c20:internal-error:" + name, What: fmt.Sprintf("%s reported an internal error (%v) on %s", name, o.err, q)})
+			}
+			if el, ok := o.err.(modfile.ErrorList); ok {
+				for _, e := range el {
+					if msg := positionOK(data, posItem{"error", e.Pos, ""}); msg != "" {
+						vs = append(vs, core.Violation{Sig: "c20:error-position:" + name, What: msg + " in error " + e.Error() + " of " + name + " on " + q})
+						break
+					}
+				}
+			}
+		}
+	}
+	strict, lax := res["Parse"], res["ParseLax"]
+	if strict.f != nil && strict.err == nil && !lax.hang && lax.panic == nil {
+		if lax.err != nil || lax.f == nil {
+			vs = append(vs, core.Violation{Sig: "c20:lax-rejects", What: fmt.Sprintf("ParseLax rejects (%v) what the strict parser accepts: %s", lax.err, q)})
+		} else {
+			s1, _ := projectMod(strict.f)
+			s2, _ := projectMod(lax.f)
+			for _, col := range diffStates(&s1, &s2) {
+				if col == "module" || col == "go" || col == "require" || col == "retract" || col == "rationale" {
+					vs = append(vs, core.Violation{Sig: "c20:lax-values", What: fmt.Sprintf("ParseLax gives different %s values than the strict parser on %s", col, q)})
+				}
+			}
+			if (strict.f.Module == nil) != (lax.f.Module == nil) || (strict.f.Module != nil && strict.f.Module.Deprecated != lax.f.Module.Deprecated) {
+				vs = append(vs, core.Violation{Sig: "c20:lax-values", What: fmt.Sprintf("ParseLax and the strict parser disagree about the module directive or its deprecation notice on %s", q)})
+			}
+		}
+	}
+	return vs
+}
+
 func stmtsEqual(a []synStmt, b []synStmt) bool { return core.Eq(normStmts(a), normStmts(b)) }
 
 func normStmts(a []synStmt) []synStmt {
@@ -203,6 +288,7 @@ func checkSyntaxInput(data []byte, exp *synExp) (vs []core.Violation, accepted b
 	if len(q) > 300 {
 		q = q[:300] + "..."
 	}
+	defer func() { vs = append(vs, checkExported(data)...) }()
 	switch {
 	case o.hang:
 		return []core.Violation{{Sig: "c20:hang", What: "the syntax parser did not return within 5s on " + q}}, false, nil, nil
@@ -321,6 +407,8 @@ type wfVariant struct {
 	opener string // local directory paths end in this comment opener, inside quotes
 	tws    bool   // comments carry trailing white space; a deprecation comment is added
 	noSpec bool   // values are not the layout's: no comparison with the specification's state
+	modblk bool   // the module directive is written as a block
+	short  bool   // versions v1.0.0 are written v1.0, v1 (accepted without a fixer and canonicalized)
 	gover  string // the go directive is replaced by (or added as) this version
 	pre    string // text put in front of the file
 }
@@ -394,6 +482,20 @@ func renderVariant(layout []mfStmt, v wfVariant) string {
 		}
 		text = strings.Join(lines, "\n")
 	}
+	if v.modblk {
+		lines := strings.Split(text, "\n")
+		for i, l := range lines {
+			if strings.HasPrefix(l, "module ") {
+				lines[i] = "module (\n\t" + strings.TrimPrefix(l, "module ") + "\n)"
+			}
+		}
+		text = strings.Join(lines, "\n")
+	}
+	if v.short {
+		text = strings.Replace(text, " v1.0.0", " v1.0", -1)
+		text = strings.Replace(text, " v1.1.0", " v1.1", -1)
+		text = strings.Replace(text, " v2.0.0", " v2", -1)
+	}
 	if v.gover != "" {
 		lines := strings.Split(text, "\n")
 		found := false
@@ -441,6 +543,8 @@ func checkWellFormed(c *core.Case) ([]core.Violation, bool) {
 	}
 	variants := []wfVariant{{name: "plain"}, {name: "crlf", crlf: true}, {name: "blank", blank: true}, {name: "quoted", quote: true}, {name: "quoted-crlf-blank", quote: true, crlf: true, blank: true},
 		{name: "dir-ends-in-slashes", opener: "//", noSpec: true}, {name: "dir-ends-in-slash-star", opener: "/*", noSpec: true},
+		{name: "module-as-block", modblk: true, noSpec: true}, {name: "module-as-block-trailing-space", modblk: true, tws: true, noSpec: true},
+		{name: "short-versions", short: true, noSpec: true},
 		{name: "go-patch-version", gover: "1.21.0", noSpec: true}, {name: "go-rc-version", gover: "1.21rc2", noSpec: true}, {name: "go-beta-version", gover: "1.23beta1", noSpec: true},
 		{name: "line-starting-with-modules", pre: "require modules.example.com/x v1.0.0\n", noSpec: true},
 		{name: "block-line-starting-with-modules", pre: "require (\n\tmodules.example.com/x v1.0.0\n\tmodule.example.com/y v1.0.0\n)\n", noSpec: true},
@@ -543,7 +647,8 @@ func checkWellFormed(c *core.Case) ([]core.Violation, bool) {
 				}
 			}
 			// the quick module-path extractor agrees with the strict parser
-			if st1.Mod != "" {
+			// (the property speaks of files whose module directive is a single line)
+			if st1.Mod != "" && !v.modblk {
 				if got := modfile.ModulePath([]byte(text)); got != st1.Mod {
 					kind := "differs"
 					if got != "" && got != st1.Mod && strings.Contains(text, "\tmodule ") {
